@@ -17,8 +17,12 @@ func main() {
 		"position of its parent, a float, a back-reference, an integer beyond 2^53 or a string needing escape/non-ASCII handling " +
 		"(JSON), resp. a float, container or integer beyond 2^53 (protobuf value); distinct = distinct event trees. Families: " +
 		"corpus (the defect witnesses), every forest of <= N nodes over {\"k\",7,[],{}} (bounded-exhaustive, all shapes incl. " +
-		"ill-formed ones for the model tie), every pool scalar in every position class, seeded random trees, the real Serializer's " +
-		"output on Data values with shared sub-containers under 5 option sets, random JSON texts for the reader"
+		"ill-formed ones for the model tie), sizes across and beyond every preallocated capacity (chains of 1..100 nested " +
+		"containers in 6 array/hash patterns x 5 sibling patterns, complete trees, containers of 0..200 elements, back-references " +
+		"to positions on both sides of 64; distribution keys shape.*), every pool scalar in every position class, seeded random " +
+		"trees (small; deep and narrow; wide; many positions), each stream played under one of 5 length-hint policies " +
+		"(pb.hint-*), the real Serializer's output on Data values with shared sub-containers under 5 option sets, random JSON " +
+		"texts for the reader (nesting to 19, up to 39 members)"
 	c := newChecker(cfg, res)
 	if cfg.Replay != "" {
 		c.verbose = true
